@@ -58,11 +58,25 @@ def run_term(t: T.Term, backend: str) -> Dict[str, Any]:
     return run_ast(T.to_ast(t), backend)
 
 
-def run_qastle_text(text: str, backend: str) -> Dict[str, Any]:
+_QCACHE: Dict[str, Any] = {}
+
+
+def qastle_parse(text: str):
+    """qastle's parser (the Earley parse costs ~50 us per character: one parse per text)."""
+    import copy
+
     import qastle
 
+    if text not in _QCACHE:
+        if len(_QCACHE) > 64:
+            _QCACHE.clear()
+        _QCACHE[text] = qastle.text_ast_to_python_ast(text).body[0].value
+    return copy.deepcopy(_QCACHE[text])
+
+
+def run_qastle_text(text: str, backend: str) -> Dict[str, Any]:
     try:
-        a = qastle.text_ast_to_python_ast(text).body[0].value
+        a = qastle_parse(text)
     except Exception as e:
         return {"err": err_class(e), "stage": "qastle-parse", "msg": str(e)[:300]}
     return run_ast(a, backend)
